@@ -118,6 +118,7 @@ type World struct {
 	lockOrder     []string
 	lockInvs      []*lockInv
 	chanElems     []types.Type
+	guardedMaps   []*types.Map
 }
 
 func loadWorld(repo string) (*World, error) {
@@ -177,6 +178,15 @@ func (w *World) typeID(t types.Type) int {
 }
 
 func (w *World) typeByName(suffix string) types.Type {
+	if strings.HasPrefix(suffix, "map[") {
+		if i := strings.Index(suffix, "]"); i > 0 {
+			k, v := w.typeByName(suffix[4:i]), w.typeByName(suffix[i+1:])
+			if k != nil && v != nil {
+				return types.NewMap(k, v)
+			}
+		}
+		return nil
+	}
 	for _, b := range types.Typ {
 		if b.Name() == suffix {
 			return b
@@ -234,6 +244,18 @@ func (w *World) inlinable(fn *ssa.Function) bool {
 
 func (w *World) contractFor(fn *ssa.Function) *Contract {
 	return w.contracts[fnKey(fn)]
+}
+
+// funcTypeContract: the `functype <Name>` contract of a named function type.
+func (w *World) funcTypeContract(t types.Type) *Contract {
+	if t == nil {
+		return nil
+	}
+	n, ok := types.Unalias(t).(*types.Named)
+	if !ok || n.Obj().Pkg() == nil {
+		return nil
+	}
+	return w.contracts[n.Obj().Pkg().Path()+".functype:"+n.Obj().Name()]
 }
 
 func (w *World) chanInv(et types.Type) *node {
@@ -507,6 +529,9 @@ func (w *World) loadContracts(file, pkgPath string) error {
 				return fmt.Errorf("%s:%d: duplicate contract for %s", file, lineNo, rest)
 			}
 			w.contracts[cur.key] = cur
+		case "functype":
+			cur = &Contract{pkg: pkgPath, short: "functype:" + rest, key: pkgPath + ".functype:" + rest, loops: map[string][]clause{}, asserts: map[string][]clause{}, file: file, line: lineNo}
+			w.contracts[cur.key] = cur
 		case "requires", "ensures", "modifies", "pred", "chaninv":
 			pend = &pending{kind: kw, label: label, text: rest, line: lineNo}
 		case "loop":
@@ -703,4 +728,50 @@ func (w *World) chanElemTypes() []types.Type {
 	}
 	sort.Slice(w.chanElems, func(i, j int) bool { return typeName(w.chanElems[i]) < typeName(w.chanElems[j]) })
 	return w.chanElems
+}
+
+// guardedMapTypes: the map types of all guarded map fields (every instantiation of the guarded struct).
+func (w *World) guardedMapTypes() []*types.Map {
+	if w.guardedMaps != nil {
+		return w.guardedMaps
+	}
+	seen := map[string]bool{}
+	for fn := range w.allFuncs {
+		recv := fn.Signature.Recv()
+		if recv == nil {
+			continue
+		}
+		rt := derefType(recv.Type())
+		for _, g := range w.guards {
+			if typeBaseName(rt) != g.typ {
+				continue
+			}
+			s, ok := rt.Underlying().(*types.Struct)
+			if !ok {
+				continue
+			}
+			for i := 0; i < s.NumFields(); i++ {
+				if s.Field(i).Name() == g.field {
+					if mt, ok := s.Field(i).Type().Underlying().(*types.Map); ok {
+						if _, isTP := mt.Key().(*types.TypeParam); isTP {
+							continue
+						}
+						if _, isTP := mt.Elem().(*types.TypeParam); isTP {
+							continue
+						}
+						k := typeName(mt)
+						if !seen[k] {
+							seen[k] = true
+							w.guardedMaps = append(w.guardedMaps, mt)
+						}
+					}
+				}
+			}
+		}
+	}
+	sort.Slice(w.guardedMaps, func(i, j int) bool { return typeName(w.guardedMaps[i]) < typeName(w.guardedMaps[j]) })
+	if w.guardedMaps == nil {
+		w.guardedMaps = []*types.Map{}
+	}
+	return w.guardedMaps
 }
